@@ -135,6 +135,8 @@ var verifC06PairExprs = []string{
 	"format(x, y)", "join(x, y)", "join(y, x)", "hashFiles(x, y)", "x.a == y", "x[0] == y", "contains(x.*.a, y)", "x[y.a]", "x.*[y]", "y.*[x]",
 	// the result of an index access is consumed
 	"y[x] == 'a'", "startsWith(y[x], 'a')", "y[x] < 1", "format('{0}', y[x])", "y[x].a", "y[x][0]", "x[y] == 'a'", "contains(y[x], 'a')", "!y[x]", "y[x] && 'a'",
+	// both operands merged by a logical operator, then used
+	"(x || y).a", "(x && y).a", "(y || x).a", "(x || y)[0]", "(x || y).*", "(x || y).*.a", "(x && y || x).a", "(x || y).a.a",
 }
 
 func HarnessC06Pairs() {
